@@ -138,6 +138,9 @@ var c19Corpus = []c19Case{
 	{"corpus", `tout csv "a,b\n1,2\n3" -> [ *99999999999 *7 ]`},
 	{"corpus", `tout csv "a,b\n1,2\n3" -> [ *9223372036854775807 *007 ]`},
 	{"corpus", `tout csv "a,b\n1,2\n3" -> ![ *99999999999 *7 ]`},
+	{"corpus", `tout jsonl "[1,2]\n[3,4]" -> [ *9 *1 ]`},
+	{"corpus", `tout jsonl -> [ *9223372036854775807 *1 ]`},
+	{"corpus", `tout jsonc "[1,2][3,4]" -> [ *9 *1 ]`},
 	{"corpus", `history`},
 	{"corpus", `out -> regexp 007`},
 	{"corpus", `murex-docs 100`},
